@@ -240,6 +240,9 @@ func genC08(g *gen) {
 	if g.thorough() {
 		g.emit("tagl 987654321 - abcd 0 w,p300,s1118900,q,p300,D70200,q,p300,s1048700,q,p300,d,p300,s1200000,q")
 	}
+	// a full resync whose first stream bytes arrive glued to the RDB tail (RDB shorter than one copy chunk, and longer)
+	g.emit("full -1 5000000 a1b2c3d4e5 1400 S300,p300,q,w,p300,s50,q,p300,d,p300,s20,q")
+	g.emit("full -1 77 0f1e2d3c4b 20000 S5000,w,p300,s1,q,p300,x,p300,s300,q")
 	if g.thorough() {
 		// retry exhaustion: the 4th broken connection within the hour aborts the process (log.Panicf)
 		g.emit("inc 77 - abcd 0 w,p300,s10,d,p300,s10,d,p300,s10,d,p300,s10,q,p300,d")
@@ -576,9 +579,27 @@ func c08RunHistory(f []string) string {
 			for i := range body {
 				body[i] = c08Rdb(i)
 			}
-			cur.c.Write(append([]byte(hdr), body...))
 			start = ann
 			srcPos = ann + 1
+			out := append([]byte(hdr), body...)
+			// first step S<k>: the first k stream bytes leave the source in the SAME write as the RDB (a busy source: commands
+			// queued directly behind the payload)
+			for len(steps) > 0 && steps[0] == "" {
+				steps = steps[1:]
+			}
+			if len(steps) > 0 && steps[0][0] == 'S' {
+				k, err := strconv.Atoi(steps[0][1:])
+				if err != nil {
+					return "badcase"
+				}
+				for i := 0; i < k; i++ {
+					out = append(out, c08Byte(srcPos+int64(i)))
+				}
+				s.logf("s%d", k)
+				srcPos += int64(k)
+				steps = steps[1:]
+			}
+			cur.c.Write(out)
 		}
 		select {
 		case r := <-done:
